@@ -42,8 +42,6 @@ type World struct {
 	MTU          int
 	T0           time.Time
 	Seen         []Seg // every segment emitted (for oracles)
-	LastRTO      int
-	rtoUsed      int
 	lastReadData bool
 }
 
@@ -307,40 +305,18 @@ func (w *World) Seg(sport, dport uint16, flags uint8, seq, ack uint32, wnd uint1
 	w.R.Emit(fmt.Sprintf("seg %d %d %s %d %d %d %s %s iss=%d", sport, dport, FlagStr(flags), seq, ack, wnd, hx.Hex(opts), hx.Hex(data), learned), segs(out))
 }
 
-// RTO waits for the retransmission timer of endpoint i to fire (up to maxMs) and reports what it sent.
-// For the timing clauses the op line carries, as learned values, the time in milliseconds between the
-// first segment emitted now and the previous emission of the same sequence number (dt), and the time
-// the harness waited (waited).
+// RTO expires the retransmission timer of endpoint i (verif hook: timers are stretched so that none fires
+// on its own; the real timer code sees its deadline reached) and reports what the stack sent. The op line
+// carries, as a learned value, the duration in nanoseconds the timer had been armed with (d; -1 = not armed).
 func (w *World) RTO(i int, maxMs int) {
-	// the timeout doubles on every expiry (1 s, 2 s, 4 s ... without a round-trip sample): only the first
-	// two expiries of a history fit into the wait
-	if w.rtoUsed >= 2 {
-		return
+	armed, d := tcp.VerifFireResendTimer(w.Eps[i])
+	dn := int64(-1)
+	if armed {
+		dn = int64(d)
 	}
-	w.rtoUsed++
-	start := time.Now()
-	var out []Seg
-	for time.Since(start) < time.Duration(maxMs)*time.Millisecond {
-		time.Sleep(2 * time.Millisecond)
-		if fs := w.L.Take(); len(fs) > 0 {
-			w.L.PutBack(fs)
-			break
-		}
-	}
-	w.LastRTO = int(time.Since(start) / time.Millisecond)
-	before := len(w.Seen)
-	out = w.Collect()
-	dt := -1
-	if len(out) > 0 {
-		for k := before - 1; k >= 0; k-- {
-			if p := w.Seen[k]; p.Seq == out[0].Seq && (len(p.Data) > 0 || p.Flags&3 != 0) {
-				dt = int((out[0].At - p.At) / time.Millisecond)
-				break
-			}
-		}
-	}
+	out := w.Collect()
 	w.R.Count("rto")
-	w.R.Emit(fmt.Sprintf("rto %d dt=%d waited=%d", i, dt, w.LastRTO), segs(out))
+	w.R.Emit(fmt.Sprintf("rto %d d=%d", i, dn), segs(out))
 }
 
 func (w *World) CookieMode(on bool) {
